@@ -184,7 +184,7 @@ theorem filter_progL : s.progL.filter wgEv = s.wgL := by
     List.filter_flatMap, Bool.false_eq_true, if_false, if_true, ite_self, flatMap_nil_fun, List.append_nil,
     List.nil_append]
 
-theorem filter_progR : s.progR.filter wgEv = [.wgAdd oRund, .wgWait oRund] := by
+theorem filter_progR : s.progR.filter wgEv = [.wgAdd oRund] := by
   unfold progR
   simp only [List.filter_append, filter_ite, List.filter_cons, List.filter_nil, wgEv, perChan,
     List.filter_flatMap, Bool.false_eq_true, if_false, if_true, ite_self, flatMap_nil_fun, List.append_nil,
@@ -235,7 +235,7 @@ theorem filter_progAR (j : Nat) : (progAR j).filter wgEv = [.start] := rfl
 /-- the wait-group events of the program of thread `t` -/
 def Sched.wgProg (s : Sched) (t : Tid) : List Ev :=
   match clsOf t with
-  | 0 => if t = tR then [.wgAdd oRund, .wgWait oRund] else []
+  | 0 => if t = tR then [.wgAdd oRund] else []
   | 1 => if t = tL then s.wgL else []
   | 2 => if t = tP then [.start] else []
   | 4 => if s.merged = true ∧ idxOf t % s.n = 0 ∧ idxOf t / s.n ≤ s.k then s.wgA (idxOf t / s.n) else []
